@@ -9,7 +9,7 @@ VARIANTS = ['asan']
 TYPES = ['int', 'float', 'bool', 'str']
 DEF = {'int': 5, 'float': 1.5, 'bool': 1, 'str': 'dflt'}
 DEFL = {'int': [1, 2], 'float': [0.5, 2.0], 'bool': [1, 0], 'str': ['a', 'b']}
-GOOD = {'int': ['7', '8', '9', '10'], 'float': ['0.25', '3', '4.5', '1e3'], 'bool': ['yes', 'off', 'true', 'no'], 'str': ['p', 'q', 'r', 's']}
+GOOD = {'ptr': ['obj1', 'obj2', 'obj3', 'obj4'], 'int': ['7', '8', '9', '10'], 'float': ['0.25', '3', '4.5', '1e3'], 'bool': ['yes', 'off', 'true', 'no'], 'str': ['p', 'q', 'r', 's']}
 GOODV = {'int': [7, 8, 9, 10], 'float': [0.25, 3.0, 4.5, 1e3], 'bool': [1, 0, 1, 0], 'str': ['p', 'q', 'r', 's']}
 BAD = {'int': 'zz', 'float': '1.2.3', 'bool': 'maybe'}
 
@@ -23,6 +23,8 @@ def decls():
         out.append(D(t + 'sp', t, 0, DEF[t], cbs='p'))
         out.append(D(t + 'lp', t, F_LIST, None, cbs='p'))
         out.append(D(t + 'n', t, F_NODEFAULT))
+    out.append(D('ptrs', 'ptr', 0, None, cbs='pf'))
+    out.append(D('ptrl', 'ptr', F_LIST, None, cbs='pf'))
     out.append(D('sec', 'sec', F_MULTI | F_TITLE, sub=[D('x', 'int', default=9), D('xs', 'str', default='k')]))
     out.append(D('usec', 'sec', F_MULTI | F_TITLE | core.F_NO_TITLE_DUPES, sub=[D('x', 'int', default=9), D('xs', 'str', default='k')]))
     out.append(D('msec', 'sec', F_MULTI, sub=[D('y', 'int', default=0)]))
@@ -55,6 +57,17 @@ def prep_ops(name, state):
     d = BYNAME[name]
     t = d.typ
     L = []
+    if t == 'ptr':
+        # pointer values only come from the parse callback: build the states through the text-taking calls
+        if state in ('set', 'annotated+set', 'list1', 'list4', 'parsed', 'parsed+append'):
+            n = {'list1': 1, 'list4': 4}.get(state, 2 if d.is_list else 1)
+            if state.startswith('parsed'):
+                L.append('parse_buf 0 %s' % hx('%s = %s\n' % (name, ('{' + ', '.join(GOOD[t][:n]) + '}') if d.is_list else GOOD[t][0])))
+            else:
+                L.append('setmulti 0 %s %d %s' % (hx(name), n, ' '.join(hx(x) for x in GOOD[t][:n])))
+        if 'annotated' in state:
+            L.append('opt_setcomment %s %s' % (optloc(name), hx('a note')))
+        return L
     if state == 'pristine':
         pass
     elif state == 'set':
@@ -86,6 +99,8 @@ def prep_ops(name, state):
 def states_for(d):
     if d.typ == 'sec':
         return ['empty', 'two', 'parsed']
+    if d.typ == 'ptr':
+        return ['pristine', 'set', 'annotated', 'annotated+set', 'parsed'] + (['list1', 'list4'] if d.is_list else [])
     if d.flags & F_NODEFAULT:
         return ['pristine', 'set', 'annotated']
     if d.is_list:
@@ -119,6 +134,11 @@ def calls_for(d):
             if d.is_list:
                 C.append(('setter:veto@1', ['v2mode 1', 'set%s 0 %s %s 1' % (t, hx(name), val_tok(t, GOODV[t][3])), 'v2mode 0']))
                 C.append(('setter:veto@append', ['v2mode 1', 'set%s 0 %s %s 9' % (t, hx(name), val_tok(t, GOODV[t][3])), 'v2mode 0']))
+        if t == 'ptr':
+            C.append(('setter:wrong-type', ['setint 0 %s 5' % hx(name)]))
+            C.append(('opt_setter:wrong-type', ['opt_setstr %s %s 0' % (optloc(name), hx('x'))]))
+            C.append(('setmulti:zero-values', ['setmulti 0 %s 0' % hx(name)]))
+            return C
         wrong = 'str' if t != 'str' else 'int'
         C.append(('setter:wrong-type', ['set%s 0 %s %s' % (wrong, hx(name), val_tok(wrong, GOODV[wrong][0]))]))
         C.append(('opt_setter:wrong-type', ['opt_set%s %s %s 0' % (wrong, optloc(name), val_tok(wrong, GOODV[wrong][0]))]))
